@@ -183,7 +183,6 @@ void Search::go()
     VERIF_POINT(VERIF_PT_GO_ENTRY, this, 0);
     init_search();
     VERIF_POINT(VERIF_PT_GO_AFTER_INIT, this, 0);
-    stop_search = false;
     VERIF_POINT(VERIF_PT_GO_AFTER_RESET, this, 0);
     _start_time = std::chrono::steady_clock::now();
 
